@@ -29,11 +29,78 @@ var properties = map[string]*propertyDef{}
 func register(p *propertyDef) {
 	run := p.Run
 	id := p.ID
+	rawRuns[id] = run
 	p.Run = func(w *World, r *Report) {
 		run(w, r)
 		ruleErrorDisciplineScoped(w, r, id)
+		for _, b := range borrowed[id] {
+			borrowRules(w, r, b.from, b.rules...)
+		}
 	}
 	properties[p.ID] = p
+}
+
+// rawRuns: each property's own rule set (without the shared additions of register).
+var rawRuns = map[string]func(w *World, r *Report){}
+
+// borrowed: rules another property's rule set evaluates and that this property depends on as well. The obligations
+// keep their rule id (as C05.R7 does where several commands share it); a violation is reported under both properties.
+var borrowed = map[string][]struct {
+	from  string
+	rules []string
+}{
+	// a point that is routed to the wrong archive or dropped is not the last value written to its slot
+	"C01": {{"C03", []string{"C03.R1", "C03.R4"}}},
+	// fetch bounds are aligned by interval(): the floored-modulo and slot-placement rules
+	"C04": {{"C01", []string{"C01.R1"}}, {"C06", []string{"C06.R6"}}},
+	// copy and sum-copy write through the propagating batch writer: its gate and its stored-slot rule
+	"C08": {{"C02", []string{"C02.R3", "C02.R6"}}},
+	// sum-copy stores, and sum-diff compares with, what sum computes
+	"C11": {{"C10", []string{"C10.R2", "C10.R4", "C17.R3"}}, {"C02", []string{"C02.R3", "C02.R6"}}},
+	// a server URL behaves like the directory only if handlers keep no state across requests and parse every
+	// timestamp the client prints
+	"C12": {{"C17", []string{"C17.R4"}}, {"C19", []string{"C19.R2"}}},
+	// sizes derived from untrusted counts are bounded in wide arithmetic by the layout validation
+	"C15": {{"C07", []string{"C07.R4"}}},
+	// remote sum goes through the /sum handler
+	"C10": {{"C17", []string{"C17.R4"}}},
+}
+
+func borrowRules(w *World, r *Report, from string, rules ...string) {
+	run := rawRuns[from]
+	if run == nil {
+		return
+	}
+	sub := newReport(from, r.Tier)
+	sub.Config = r.Config
+	func() {
+		defer func() {
+			if p := recover(); p != nil {
+				sub.Undecided("G.panic", "analyser:"+from, "-", fmt.Sprint(p))
+			}
+		}()
+		run(w, sub)
+	}()
+	want := map[string]bool{}
+	for _, id := range rules {
+		want[id] = true
+	}
+	have := map[string]bool{}
+	for _, o := range r.Obligs {
+		have[o.Rule+"|"+o.Key] = true
+	}
+	for _, ri := range sub.Rules {
+		if want[ri.ID] {
+			if _, ok := r.ruleIdx[ri.ID]; !ok {
+				r.Rule(ri.ID, ri.Doc+" [evaluated by the rule set of "+from+"; this property depends on it as well]", 0)
+			}
+		}
+	}
+	for _, o := range sub.Obligs {
+		if (want[o.Rule] || o.Rule == "G.panic") && !have[o.Rule+"|"+o.Key] {
+			r.add(o.Rule, o.Key, o.Pos, o.Verdict, o.NonTrivial, o.Detail, o.Witness...)
+		}
+	}
 }
 
 var commonAssumptions = []string{
